@@ -7,17 +7,32 @@
 
      H_of M p := M ("h"++p),   T_of M p := M ("t"++p)    (M: a classical interpretation of the h/t vocabulary)
 
+   THE FUEL (audit A8).  The model of the unbounded Rust loop `while previous != current` takes
+   the number of further passes as a parameter: [strong_decompose_full_fuel fuel t];
+   [strong_decompose_full] is its executable instance at fuel 64 (extracted, compared with the
+   code).  Every theorem below is stated FOR EVERY FUEL.  Termination of both loops is proved
+   (C18_term_ht, C18_term_cls) and composed here: an SOk / SPanic answer is the same for every
+   larger fuel (C03_fuel_monotone), from [strong_fuel_bound t] on the answer is never
+   SNonterminating (C03_never_nonterminating), so every task has ONE answer that all sufficiently
+   large fuels give (C03_eventual_result) and the headline statement holds for it
+   (C03_strong_eventually); SNonterminating is only a fuel artefact
+   (C03_nonterminating_is_fuel_artefact).
+
    Premises that remain, and why:
-     strong_decompose_full t = SOk pbs   the model returned problems: the programs are outside the
+     strong_decompose_full_fuel fuel t = SOk pbs
+                                         the model returned problems: the programs are outside the
                                          overflow class F11 ([no_global_overflow], implied by SOk:
-                                         C03_full_defined) and the post-gamma fixpoint loop, whose
-                                         termination is not proved, stopped within the model's fuel;
-     no_symbol_pred_clash_full t         no symbol of an emitted formula equals a 0-ary predicate of
+                                         C03_full_defined; SPanic comes from that class only:
+                                         C03_panic_only_overflow) and [fuel] passes sufficed;
+     no_symbol_pred_clash_full_fuel fuel t
+                                         no symbol of an emitted formula equals a 0-ary predicate of
                                          its problem; outside this class rename_conflicting_symbols
                                          changes the meaning (finding F8b, Properties/C03.v): the
                                          renamed constant s__s is then ordered by its NEW name in the
                                          symbol_order chain, which is false for the constant it stands
-                                         for (C12_chain_refuted_after_rename, Properties/C12.v).
+                                         for (C12_chain_refuted_after_rename, Properties/C12.v).  It
+                                         does not depend on the fuel once the run returned
+                                         (C03_clash_premise_fuel_independent).
 
    HOW TO READ THE STATEMENTS (audit A9).
    * "refuted" / "irrefutable" is about STANDARD structures: `refutes_some FI M pbs` evaluates the named
@@ -40,52 +55,53 @@ From Coq Require Import List String ZArith Bool.
 Import ListNotations.
 From Anthem Require Import Base.ISet Syntax.Fol Syntax.Asp Sem.Domain Sem.Sat Sem.AspRef Model.Problem
   Model.Strong Model.StrongFull Proofs.SemBase Proofs.DecomposeOk Proofs.StrongOk Proofs.TauStarProgram
-  Proofs.StrongFullOk Proofs.StrongFamilies.
+  Proofs.StrongFullOk Proofs.StrongFamilies Proofs.StrongFuel Proofs.ParserImage Proofs.ParserImagePipeline Proofs.NoPanic Proofs.AspNamed.
+From Anthem Require Model.AspParse.
 Open Scope string_scope.
 
 (* the general statement (any direction) *)
 Theorem C03 :
-  forall (FI : fint) (M : pint) (t : strong_task) (pbs : list problem),
-    strong_decompose_full t = SOk pbs -> no_symbol_pred_clash_full t ->
+  forall (fuel : nat) (FI : fint) (M : pint) (t : strong_task) (pbs : list problem),
+    strong_decompose_full_fuel fuel t = SOk pbs -> no_symbol_pred_clash_full_fuel fuel t ->
     (refutes_some FI M pbs <->
      sub_on (strong_predicates (st_left t) (st_right t)) (H_of M) (T_of M) /\
      ((dir_forward (st_direction t) = true /\
        ref_sat (H_of M) (T_of M) (st_left t) /\ ~ ref_sat (H_of M) (T_of M) (st_right t)) \/
       (dir_backward (st_direction t) = true /\
        ref_sat (H_of M) (T_of M) (st_right t) /\ ~ ref_sat (H_of M) (T_of M) (st_left t)))).
-Proof. exact C03_full_proof. Qed.
+Proof. exact C03_full_fuel_proof. Qed.
 Print Assumptions C03.
 
 (* direction forward: some emitted problem is refuted by M exactly when (H_of M, T_of M) is an HT
    interpretation on the programs' predicates that satisfies the left program and not the right *)
 Theorem C03_forward :
-  forall (FI : fint) (M : pint) (t : strong_task) (pbs : list problem),
+  forall (fuel : nat) (FI : fint) (M : pint) (t : strong_task) (pbs : list problem),
     st_direction t = DForward ->
-    strong_decompose_full t = SOk pbs -> no_symbol_pred_clash_full t ->
+    strong_decompose_full_fuel fuel t = SOk pbs -> no_symbol_pred_clash_full_fuel fuel t ->
     (refutes_some FI M pbs <->
      sub_on (strong_predicates (st_left t) (st_right t)) (H_of M) (T_of M) /\
      ref_sat (H_of M) (T_of M) (st_left t) /\ ~ ref_sat (H_of M) (T_of M) (st_right t)).
-Proof. exact C03_forward_proof. Qed.
+Proof. exact C03_forward_fuel_proof. Qed.
 Print Assumptions C03_forward.
 
 Theorem C03_backward :
-  forall (FI : fint) (M : pint) (t : strong_task) (pbs : list problem),
+  forall (fuel : nat) (FI : fint) (M : pint) (t : strong_task) (pbs : list problem),
     st_direction t = DBackward ->
-    strong_decompose_full t = SOk pbs -> no_symbol_pred_clash_full t ->
+    strong_decompose_full_fuel fuel t = SOk pbs -> no_symbol_pred_clash_full_fuel fuel t ->
     (refutes_some FI M pbs <->
      sub_on (strong_predicates (st_left t) (st_right t)) (H_of M) (T_of M) /\
      ref_sat (H_of M) (T_of M) (st_right t) /\ ~ ref_sat (H_of M) (T_of M) (st_left t)).
-Proof. exact C03_backward_proof. Qed.
+Proof. exact C03_backward_fuel_proof. Qed.
 Print Assumptions C03_backward.
 
 (* all problems irrefutable <-> the programs have the same here-and-there models *)
 Theorem C03_strong :
-  forall (t : strong_task) (pbs : list problem),
+  forall (fuel : nat) (t : strong_task) (pbs : list problem),
     st_direction t = DUniversal ->
-    strong_decompose_full t = SOk pbs -> no_symbol_pred_clash_full t ->
+    strong_decompose_full_fuel fuel t = SOk pbs -> no_symbol_pred_clash_full_fuel fuel t ->
     ((forall FI M, ~ refutes_some FI M pbs) <->
      (forall H T, sub H T -> (ref_sat H T (st_left t) <-> ref_sat H T (st_right t)))).
-Proof. exact C03_strong_proof. Qed.
+Proof. exact C03_strong_fuel_proof. Qed.
 Print Assumptions C03_strong.
 
 (* the problems of --direction universal are the forward problems followed by the backward problems
@@ -103,25 +119,25 @@ Print Assumptions C03_universal_families.
 (* the SOk case is Model/Strong.v's assembly over the real components, and implies that neither
    program is in the overflow class *)
 Theorem C03_full_defined :
-  forall (t : strong_task) (pbs : list problem), strong_decompose_full t = SOk pbs ->
-    pbs = strong_decompose tau_star_tot mu_tot simp_ht_tot simp_classic_tot t /\
+  forall (fuel : nat) (t : strong_task) (pbs : list problem), strong_decompose_full_fuel fuel t = SOk pbs ->
+    pbs = strong_decompose tau_star_tot mu_tot simp_ht_tot (simp_classic_tot_fuel fuel) t /\
     no_global_overflow (st_left t) /\ no_global_overflow (st_right t).
-Proof. exact strong_decompose_full_ok. Qed.
+Proof. exact strong_decompose_full_fuel_ok. Qed.
 Print Assumptions C03_full_defined.
 
 (* when the model returns: without --simplify exactly outside the overflow class; in the overflow
    class it panics (as the code does, F11); the pre-gamma loop never runs out of fuel *)
 Theorem C03_full_total_nosimplify :
-  forall t : strong_task, st_simplify t = false ->
-    ((exists pbs, strong_decompose_full t = SOk pbs) <->
+  forall (fuel : nat) (t : strong_task), st_simplify t = false ->
+    ((exists pbs, strong_decompose_full_fuel fuel t = SOk pbs) <->
      no_global_overflow (st_left t) /\ no_global_overflow (st_right t)).
-Proof. exact strong_decompose_full_nosimplify. Qed.
+Proof. exact strong_decompose_full_fuel_nosimplify. Qed.
 Print Assumptions C03_full_total_nosimplify.
 
 Theorem C03_full_panics_on_overflow :
-  forall t : strong_task,
-    ~ no_global_overflow (st_left t) \/ ~ no_global_overflow (st_right t) -> strong_decompose_full t = SPanic.
-Proof. exact strong_decompose_full_panic_overflow. Qed.
+  forall (fuel : nat) (t : strong_task),
+    ~ no_global_overflow (st_left t) \/ ~ no_global_overflow (st_right t) -> strong_decompose_full_fuel fuel t = SPanic.
+Proof. exact strong_decompose_full_fuel_panic_overflow. Qed.
 Print Assumptions C03_full_panics_on_overflow.
 
 Theorem C03_pre_gamma_total : forall f : formula, exists g, simp_ht_full f = SOk g.
@@ -130,9 +146,137 @@ Print Assumptions C03_pre_gamma_total.
 
 (* the clash premise is decidable by a boolean test on the model's own problems *)
 Theorem C03_clash_premise_decidable :
-  forall t : strong_task, no_symbol_pred_clash_fullb t = true <-> no_symbol_pred_clash_full t.
-Proof. exact no_symbol_pred_clash_fullb_ok. Qed.
+  forall (fuel : nat) (t : strong_task),
+    no_symbol_pred_clash_fullb_fuel fuel t = true <-> no_symbol_pred_clash_full_fuel fuel t.
+Proof. exact no_symbol_pred_clash_fullb_fuel_ok. Qed.
 Print Assumptions C03_clash_premise_decidable.
+
+(* ---------- the fuel: C18_term_cls composed (audit A8) ---------- *)
+(* the executable model is the instance at 64 passes *)
+Theorem C03_executable_instance :
+  forall t : strong_task, strong_decompose_full t = strong_decompose_full_fuel 64 t.
+Proof. reflexivity. Qed.
+Print Assumptions C03_executable_instance.
+
+(* (i) monotonicity: an answer other than SNonterminating is the answer of every larger fuel *)
+Theorem C03_fuel_monotone :
+  forall (n : nat) (t : strong_task) (r : sresult (list problem)),
+    strong_decompose_full_fuel n t = r -> r <> SNonterminating ->
+    forall m, n <= m -> strong_decompose_full_fuel m t = r.
+Proof. exact strong_decompose_full_fuel_mono. Qed.
+Print Assumptions C03_fuel_monotone.
+Corollary C03_fuel_monotone_ok :
+  forall (n : nat) (t : strong_task) (pbs : list problem),
+    strong_decompose_full_fuel n t = SOk pbs -> forall m, n <= m -> strong_decompose_full_fuel m t = SOk pbs.
+Proof. intros n t pbs E. apply (strong_decompose_full_fuel_mono n t (SOk pbs) E). discriminate. Qed.
+Print Assumptions C03_fuel_monotone_ok.
+
+(* (ii) termination: from [strong_fuel_bound t] passes on (the maximum of ClsTerm.classic_fuel over
+   the gamma-formulas of the task, <= (mu F + 1)^6) the model never answers SNonterminating *)
+Theorem C03_never_nonterminating :
+  forall t : strong_task, exists n, forall m, n <= m -> strong_decompose_full_fuel m t <> SNonterminating.
+Proof. exact C03_never_nonterminating_proof. Qed.
+Print Assumptions C03_never_nonterminating.
+Theorem C03_never_nonterminating_bound :
+  forall (t : strong_task) (m : nat), strong_fuel_bound t <= m -> strong_decompose_full_fuel m t <> SNonterminating.
+Proof. exact strong_never_nonterminating. Qed.
+Print Assumptions C03_never_nonterminating_bound.
+
+(* every task has ONE answer - a list of problems or the panic - given by all sufficiently large
+   fuels; "the result of the task" is well defined without reference to 64 *)
+Theorem C03_eventual_result :
+  forall t : strong_task,
+    exists n r, r <> SNonterminating /\ forall m, n <= m -> strong_decompose_full_fuel m t = r.
+Proof. exact strong_eventual_result. Qed.
+Print Assumptions C03_eventual_result.
+
+(* the Nonterminating outcome is only a fuel artefact *)
+Theorem C03_nonterminating_is_fuel_artefact :
+  forall (n : nat) (t : strong_task), strong_decompose_full_fuel n t = SNonterminating ->
+    exists m r, n < m /\ r <> SNonterminating /\ forall m', m <= m' -> strong_decompose_full_fuel m' t = r.
+Proof. exact strong_nonterminating_is_fuel_artefact. Qed.
+Print Assumptions C03_nonterminating_is_fuel_artefact.
+
+(* the clash premise does not depend on the fuel once the run returned problems *)
+Theorem C03_clash_premise_fuel_independent :
+  forall (n m : nat) (t : strong_task) (pbs : list problem), n <= m ->
+    strong_decompose_full_fuel n t = SOk pbs ->
+    (no_symbol_pred_clash_full_fuel n t <-> no_symbol_pred_clash_full_fuel m t).
+Proof. exact strong_clash_fuel_independent. Qed.
+Print Assumptions C03_clash_premise_fuel_independent.
+
+(* THE HEADLINE FOR "THE RESULT OF THE TASK": for every task (direction universal) there is a
+   number of passes n from which on either every fuel panics (the overflow class F11,
+   C03_panic_only_overflow) or every fuel returns the same problems pbs, and for them - the clash
+   premise taken at any such fuel - all problems are irrefutable iff the programs are strongly
+   equivalent.  No SNonterminating, no 64. *)
+Theorem C03_strong_eventually :
+  forall t : strong_task, st_direction t = DUniversal ->
+    exists n,
+      (forall m, n <= m -> strong_decompose_full_fuel m t = SPanic) \/
+      (exists pbs, (forall m, n <= m -> strong_decompose_full_fuel m t = SOk pbs) /\
+                   forall m, n <= m -> no_symbol_pred_clash_full_fuel m t ->
+                     ((forall FI M, ~ refutes_some FI M pbs) <->
+                      (forall H T, sub H T -> (ref_sat H T (st_left t) <-> ref_sat H T (st_right t))))).
+Proof.
+  intros t Hd. destruct (strong_eventual_result t) as [n [r [Hr Hn]]]. exists n.
+  destruct r as [pbs| |]; [right|left; exact Hn|congruence].
+  exists pbs. split; [exact Hn|]. intros m Hm Hc.
+  exact (C03_strong_fuel_proof m t pbs Hd (Hn m Hm) Hc).
+Qed.
+Print Assumptions C03_strong_eventually.
+
+(* ---------- SPanic comes from the overflow class only (audit A8 b) ---------- *)
+(* The rewrites of classic.rs panic only outside the parser image (empty guard list, empty variable
+   name); tau*, the pre-gamma simplification and gamma produce parser-image formulas and the whole
+   portfolio preserves the invariant (Properties/C07full.v), so the post-gamma loop never panics:
+   the ONLY panic of the pipeline is F11.  [program_vars_named P]: every variable of P has a
+   non-empty name (what the ASP parser produces; a hand-built program with the variable "" makes tau*
+   bind an empty name). *)
+Theorem C03_panic_only_overflow :
+  forall (fuel : nat) (t : strong_task),
+    program_vars_named (st_left t) -> program_vars_named (st_right t) ->
+    strong_decompose_full_fuel fuel t = SPanic ->
+    ~ no_global_overflow (st_left t) \/ ~ no_global_overflow (st_right t).
+Proof. exact strong_panic_only_overflow. Qed.
+Print Assumptions C03_panic_only_overflow.
+
+Theorem C03_panic_iff_overflow :
+  forall (fuel : nat) (t : strong_task),
+    program_vars_named (st_left t) -> program_vars_named (st_right t) ->
+    (strong_decompose_full_fuel fuel t = SPanic <->
+     ~ no_global_overflow (st_left t) \/ ~ no_global_overflow (st_right t)).
+Proof. exact strong_panic_iff_overflow. Qed.
+Print Assumptions C03_panic_iff_overflow.
+
+(* TOTALITY WITH --simplify (the counterpart of C03_full_total_nosimplify; audit A8 "no totality
+   theorem for st_simplify = true"): outside the overflow class every sufficiently large fuel
+   returns the same list of problems - both representations, every flag *)
+Theorem C03_full_total :
+  forall t : strong_task,
+    program_vars_named (st_left t) -> program_vars_named (st_right t) ->
+    no_global_overflow (st_left t) -> no_global_overflow (st_right t) ->
+    exists n pbs, forall m, n <= m -> strong_decompose_full_fuel m t = SOk pbs.
+Proof. exact strong_total_outside_overflow. Qed.
+Print Assumptions C03_full_total.
+
+(* the hypothesis is what the ASP parser guarantees: every program text the parser accepts yields a
+   program whose variables have non-empty names (AspImage: an upper-case letter followed by letters and digits) *)
+Theorem C03_parsed_programs_named :
+  forall (s : string) (p : program), AspParse.parse_program_text s = AspParse.POk p -> program_vars_named p.
+Proof. exact parsed_program_vars_named. Qed.
+Print Assumptions C03_parsed_programs_named.
+
+(* the generic form: whatever representation step delivers parser-image formulas ([repr_image t P]:
+   every formula of the representation of P has >= 1 guard per comparison and non-empty bound
+   names); instantiated above by tau_star_pi (tau-star) and mu_full_pi (mu, Proofs/ParserImageNatural.v) *)
+Theorem C03_panic_only_overflow_generic :
+  forall (fuel : nat) (t : strong_task),
+    repr_image t (st_left t) -> repr_image t (st_right t) ->
+    strong_decompose_full_fuel fuel t = SPanic ->
+    ~ no_global_overflow (st_left t) \/ ~ no_global_overflow (st_right t).
+Proof. exact strong_panic_only_overflow_partial. Qed.
+Print Assumptions C03_panic_only_overflow_generic.
 
 (* ---------- non-vacuity ---------- *)
 (* (1) the model computes, inside Coq, exactly what the CLI prints.
@@ -187,7 +331,7 @@ Definition f_lp : program := [mkrule (HBasic (a0 "p")) [BLit (mklit SNone (a0 "q
 Definition t_ex : strong_task := mkstrong e_lp f_lp DSequential DForward ReprTauStar true true.
 Definition M_ex : pint := fun p a => p = "hq" \/ p = "tq" \/ p = "tr".
 
-Lemma t_ex_no_clash : no_symbol_pred_clash_full t_ex.
+Lemma t_ex_no_clash : no_symbol_pred_clash_full_fuel 64 t_ex.
 Proof. apply no_symbol_pred_clash_fullb_ok. vm_compute. reflexivity. Qed.
 
 Example C03_nonvacuous :
@@ -196,7 +340,7 @@ Example C03_nonvacuous :
 Proof.
   destruct (strong_decompose_full t_ex) as [pbs| |] eqn:E; try (vm_compute in E; discriminate).
   exists pbs. split; [reflexivity|]. split; [intros ->; vm_compute in E; discriminate|].
-  apply (proj2 (C03_forward (mkfint (fun _ => VInf) (fun _ => 0%Z) (fun _ => "")) M_ex t_ex pbs eq_refl E t_ex_no_clash)).
+  apply (proj2 (C03_forward 64 (mkfint (fun _ => VInf) (fun _ => 0%Z) (fun _ => "")) M_ex t_ex pbs eq_refl E t_ex_no_clash)).
   change (st_left t_ex) with e_lp. change (st_right t_ex) with f_lp.
   assert (Hq : forall sg vs, tuple_vals sg [] vs -> vs = []) by (intros sg vs Hv; inversion Hv; reflexivity).
   split; [|split].
